@@ -224,8 +224,21 @@ pub fn panic_sig(file: &str, msg: &str, req: Option<&Value>) -> String {
     };
   }
   let msg = msg.strip_prefix("internal error: entered unreachable code: ").unwrap_or(msg);
+  // arithmetic panics inside the aggregation code: the bounded aggregation types of the request
+  // name the input class (several loops of that file share the message)
+  let mut suffix = String::new();
+  if file.ends_with("query/aggs/mod.rs") && msg.starts_with("attempt to") {
+    let mut types = Vec::new();
+    if let Some(r) = req {
+      gen::bounded_agg_types(r, &mut types);
+    }
+    types.sort();
+    if !types.is_empty() {
+      suffix = format!("@{}-bounds", types.join("+"));
+    }
+  }
   let head: String = msg.split(|c| matches!(c, ':' | ';' | '`' | '\'' | '(' | '"')).next().unwrap_or("").to_string();
-  format!("panic.{}.{}", file_class(file), slug(&head, 64))
+  format!("panic.{}.{}{suffix}", file_class(file), slug(&head, 64))
 }
 
 // ---------------------------------------------------------------- index of a case
@@ -315,14 +328,36 @@ fn with_defaults(mut r: Value) -> Value {
 
 // ---------------------------------------------------------------- stream: plain / mutated requests
 
-fn run_req_item(b: &mut Built, case: &Value, item: &Value, s: &mut Summary) {
+fn run_req_item(b: &mut Built, drv: &mut Driver, case: &Value, item: &Value, s: &mut Summary) {
   let (text, reqv): (String, Option<Value>) = match item.get("raw").and_then(|r| r.as_str()) {
     Some(raw) => (raw.to_string(), serde_json::from_str(raw).ok()),
-    None => (item["req"].to_string(), Some(item["req"].clone())),
+    // the request as the code will read it: serde_json's float parser is not exact, the text
+    // is re-read so that the harness reasons about the very numbers the code gets
+    None => {
+      let text = item["req"].to_string();
+      let v = serde_json::from_str(&text).ok();
+      (text, v)
+    }
   };
+  // a request with a loop that can never finish (by the harness's own reading of the code)
+  // runs in a child process: the spinning thread dies with the child
+  if std::env::var("VERIF_C16_CHILD").is_err() {
+    if let Some(label) = reqv.as_ref().and_then(gen::risk) {
+      let mut it = item.clone();
+      it["param"] = json!(label);
+      s.count("req.routed-to-child-process");
+      run_isolated_item(case, &it, s);
+      return;
+    }
+  }
   let out = run_text(b, &text);
   let stream = item["stream"].as_str().unwrap_or("req");
   judge(s, case, item, reqv.as_ref(), &out, stream);
+  if stream == "bounds" {
+    if let Some(r) = &reqv {
+      bounds_correspondence(b, drv, case, item, r, &out, s);
+    }
+  }
   if let (Out::Err(e), Some(_)) = (&out, &reqv) {
     // which validation answered (input distribution only)
     let head: String = e.split(|c| matches!(c, ':' | '`')).next().unwrap_or("").to_string();
@@ -332,6 +367,77 @@ fn run_req_item(b: &mut Built, case: &Value, item: &Value, s: &mut Summary) {
     for k in ["aggs", "sort", "filter", "fuzzy", "highlight", "collapse", "suggest", "rescore", "cursor", "explain"] {
       if r.get(k).map(|v| !v.is_null()).unwrap_or(false) {
         s.count(&format!("feature.{k}"));
+      }
+    }
+  }
+}
+
+/// `Core/HistFill` against the code: the bucket fill of the one bounded aggregation of a
+/// `bounds` request.  Which loop the code has (with or without the `== end` break) is read off
+/// the canonical witness on the same index; the model variant for that loop must then predict
+/// the outcome class of every request, and a finished fill must have inserted its buckets.
+fn bounds_correspondence(b: &mut Built, drv: &mut Driver, case: &Value, item: &Value, req: &Value, out: &Out, s: &mut Summary) {
+  let Some(agg) = req["aggs"]["h"].as_object() else { return };
+  let gen::Fill::Count(n, Some((start, end, step))) = gen::fill_of(agg) else { return };
+  if n > 10_000 || matches!(out, Out::Hang | Out::Reject(_)) {
+    return;
+  }
+  let sub = single(case, item);
+  let numeric = agg.get("type") == Some(&json!("histogram"));
+  let m = if numeric {
+    drv.call("C16", json!({"op": "hist_fill", "start": start, "stop": end}))
+  } else {
+    drv.call("C16", json!({"op": "date_fill", "step": step, "start": start, "stop": end}))
+  };
+  if m["ok"] != json!(true) {
+    s.disagree("bounds.driver", &sub, out.brief(), m);
+    return;
+  }
+  let buckets = match out {
+    Out::Ok(v) => v["aggregations"]["h"]["buckets"].as_array().map(|a| a.len()),
+    _ => None,
+  };
+  if numeric {
+    // with or without the break?
+    let probe = json!({"query": {"type": "match_all"}, "limit": 1, "return_stored": false, "highlight_field": null,
+      "aggs": {"h": {"type": "histogram", "field": "n", "interval": 1.0, "extended_bounds": {"min": 1e300, "max": 1e300}}}});
+    let legacy = matches!(run_text(b, &probe.to_string()), Out::Panic { ref msg, .. } if msg.contains("overflow"));
+    s.count(if legacy { "bounds.code-has-the-loop-without-break" } else { "bounds.code-has-the-loop-with-break" });
+    let pred = if legacy { &m["legacy"] } else { &m["repaired"] };
+    let want = match pred["cls"].as_str() {
+      Some("done") => "ok",
+      Some("overflow") => "panic",
+      _ => "?",
+    };
+    s.count(&format!("bounds.model-{}", pred["cls"].as_str().unwrap_or("?")));
+    if out.class() == "error" {
+      s.count("bounds.rejected-by-validation");
+      return;
+    }
+    if out.class() != want {
+      s.disagree("bounds.histogram-fill-outcome", &sub, out.brief(), m.clone());
+      return;
+    }
+    // a finished fill inserted its buckets (documents can only add more; min_doc_count keeps
+    // empty buckets only when it is 0)
+    let keeps_empty = agg.get("min_doc_count").map(|c| c == &json!(0) || c.is_null()).unwrap_or(true);
+    if let (Some(len), Some(ins), true) = (buckets, pred["inserted"].as_u64(), keeps_empty && want == "ok") {
+      if (len as u64) < ins {
+        s.disagree("bounds.histogram-fill-buckets", &sub, json!({"buckets": len}), m);
+      }
+    }
+  } else {
+    if out.class() != "ok" {
+      return;
+    }
+    s.count(&format!("bounds.date-model-{}", m["fill"]["cls"].as_str().unwrap_or("?")));
+    if m["fill"]["cls"] == json!("never") {
+      s.disagree("bounds.date-fill-finished-but-model-never", &sub, out.brief(), m.clone());
+      return;
+    }
+    if let (Some(len), Some(ins)) = (buckets, m["fill"]["inserted"].as_u64()) {
+      if (len as u64) < ins {
+        s.disagree("bounds.date-fill-buckets", &sub, json!({"buckets": len}), m);
       }
     }
   }
@@ -780,6 +886,7 @@ fn run_isolated_item(case: &Value, item: &Value, s: &mut Summary) {
   let child = std::process::Command::new(exe)
     .args(["C16", "--replay", inp.to_str().unwrap_or(""), "--out", outp.to_str().unwrap_or("")])
     .env_remove("VERIF_C16_TRACE")
+    .env("VERIF_C16_CHILD", "1")
     .env("VERIF_JOBS", "1")
     .stdin(std::process::Stdio::null())
     .stdout(std::process::Stdio::null())
@@ -793,7 +900,7 @@ fn run_isolated_item(case: &Value, item: &Value, s: &mut Summary) {
   let status = loop {
     match child.try_wait() {
       Ok(Some(st)) => break Some(st),
-      Ok(None) if t0.elapsed() > Duration::from_secs(60) => {
+      Ok(None) if t0.elapsed() > 2 * WATCHDOG + Duration::from_secs(60) => {
         let _ = child.kill();
         let _ = child.wait();
         break None;
@@ -815,13 +922,17 @@ fn run_isolated_item(case: &Value, item: &Value, s: &mut Summary) {
       s.case(&reported, true);
       let fs = sum["failures"].as_array().cloned().unwrap_or_default();
       if fs.is_empty() {
-        let cls = sum["distribution"].as_object().and_then(|d| d.keys().find(|k| k.starts_with("huge.")).cloned()).unwrap_or_else(|| "huge.?".into());
-        s.count(&format!("isolated.{}", cls.trim_start_matches("huge.")));
+        let stream = item["stream"].as_str().unwrap_or("huge");
+        let prefix = format!("{stream}.");
+        let cls = sum["distribution"].as_object().and_then(|d| d.keys().find(|k| k.starts_with(&prefix)).cloned()).unwrap_or_else(|| format!("{prefix}?"));
+        s.count(&format!("isolated.{}", cls.trim_start_matches(&prefix)));
       }
       for f in fs {
         s.count("isolated.panic-or-hang");
         // the panic site of a size problem is inside std: the parameter names the input class
-        let sig = format!("{}@{label}", f["sig"].as_str().unwrap_or("?"));
+        // (a signature that already names its input class keeps it)
+        let child_sig = f["sig"].as_str().unwrap_or("?");
+        let sig = if child_sig.contains('@') { child_sig.to_string() } else { format!("{child_sig}@{label}") };
         s.fail(&sig, f["what"].as_str().unwrap_or(""), &reported, f["observed"].clone());
       }
     }
@@ -853,7 +964,7 @@ impl Prop for C16 {
     "C16"
   }
   fn rule(&self) -> &'static str {
-    "case = random small index (text/keyword/numeric/nested schema, 0-3 commits, deletions, in-memory or filesystem) + 8-12 requests of one stream: structured random requests (all query node types, filters, sorts, 20 aggregation shapes incl. pipelines, highlight, collapse, suggest, rescore, fuzzy, huge numbers, regex/wildcard metacharacters, deep trees, scripts), tree- and character-level mutations of such requests (multi-byte characters, extreme numbers, truncation, deep nesting), rescore requests over several segments whose rescore query rejects window hits, cursor strings (real next_cursor, edited, random hex, odd lengths, non-ASCII at even/odd offsets) on score and field sorts, script_score scripts from an expression grammar plus malformed variants, minimum_should_match specs, and planner-class queries with repeated terms; every request runs in its own thread under catch_unwind with a 30 s watchdog, debug assertions on. A request is non-trivial when it deserialises and reaches IndexReader::search (distinct by index+request JSON). Exploration, not proof: the blanket claim rests on this stream."
+    "case = random small index (text/keyword/numeric/nested schema, 0-3 commits, deletions, in-memory or filesystem) + 8-12 requests of one stream: structured random requests (all query node types, filters, sorts, 20 aggregation shapes incl. pipelines, highlight, collapse, suggest, rescore, fuzzy, huge numbers, regex/wildcard metacharacters, deep trees, scripts), tree- and character-level mutations of such requests (multi-byte characters, extreme numbers, truncation, deep nesting), rescore requests over several segments whose rescore query rejects window hits, histogram/date_histogram bounds of huge magnitude with zero or small span and zero/sub-millisecond/ordinary steps (a request whose fill loop can never finish runs in a child process), cursor strings (real next_cursor, edited, random hex, odd lengths, non-ASCII at even/odd offsets) on score and field sorts, script_score scripts from an expression grammar plus malformed variants, minimum_should_match specs, and planner-class queries with repeated terms; every request runs in its own thread under catch_unwind with a 30 s watchdog, debug assertions on. A request is non-trivial when it deserialises and reaches IndexReader::search (distinct by index+request JSON). Exploration, not proof: the blanket claim rests on this stream."
   }
   fn count(&self, tier: Tier) -> usize {
     tier.pick(900, 24_000)
@@ -875,6 +986,14 @@ impl Prop for C16 {
           })
           .collect(),
       );
+      return c;
+    }
+    if i % 36 == 2 {
+      // histogram / date_histogram bounds: huge magnitudes with zero or small span, zero and
+      // sub-millisecond steps, offsets
+      let mut c = case_of(rng, "req", 1);
+      let n = 10 + rng.below(4);
+      c["items"] = Value::Array((0..n).map(|_| json!({"stream": "bounds", "req": gen::bounds_request(rng)})).collect());
       return c;
     }
     match i % 12 {
@@ -1056,7 +1175,7 @@ impl Prop for C16 {
         "msm" => run_msm_item(&mut b, drv, case, &item, s),
         "plan" => run_plan_item(&mut b, drv, case, &item, s),
         "rescore" => run_rescore_item(&mut b, drv, case, &item, s),
-        _ => run_req_item(&mut b, case, &item, s),
+        _ => run_req_item(&mut b, drv, case, &item, s),
       }
     }
   }
@@ -1064,6 +1183,6 @@ impl Prop for C16 {
   fn finish(&self, _tier: Tier, s: &mut Summary) {
     s.exhaustive = false;
     s.notes.push("exploration: requests are sampled; only the library API is driven (a panic under extern \"C\" aborts the process, the FFI entry point is covered by C26 with valid requests)".into());
-    s.notes.push("histogram/date_histogram bounds are sanitised to <= 10^6 buckets in-process (the bucket fill between bounds is unbounded in the code); one-huge-size-parameter requests additionally run in child processes, where an allocation failure (process abort) is observable".into());
+    s.notes.push("histogram/date_histogram bounds are kept unless the fill would really insert > 10^6 buckets (evaluated the way the code evaluates it) (the bucket fill between bounds is unbounded in the code); one-huge-size-parameter requests additionally run in child processes, where an allocation failure (process abort) is observable".into());
   }
 }
